@@ -16,7 +16,7 @@ algorithms.
 import inspect
 
 from ufl.algorithms.map_integrands import map_integrands
-from ufl.classes import Variable, all_ufl_classes
+from ufl.classes import Variable
 from ufl.core.ufl_type import UFLType
 
 
@@ -46,10 +46,10 @@ class Transformer:
         # Analyse class properties and cache handler data the
         # first time this is run for a particular class
         cache_data = Transformer._handlers_cache.get(type(self))
-        if not cache_data:
-            cache_data = [None] * len(all_ufl_classes)
+        if not cache_data or len(cache_data) != len(UFLType._ufl_all_classes_):
+            cache_data = [None] * len(UFLType._ufl_all_classes_)
             # For all UFL classes
-            for classobject in all_ufl_classes:
+            for classobject in UFLType._ufl_all_classes_:
                 # Iterate over the inheritance chain
                 # (NB! This assumes that all UFL classes inherits a single
                 # Expr subclass and that this is the first superclass!)
